@@ -3,7 +3,10 @@
 // placeholder), executed against an abstraction of the string layer (C17 control flow, C09 time scaling).
 // Calling the real function reaches core's dec2flt and jlabel's parser, each of which exhausts CBMC on one
 // token (label_k.rs).  The shim gives the body the same method names on a pre-tokenised line:
-//   line.as_ref() -> &SStr;  SStr::splitn(3, ' ') yields the line's (at most 3) tokens;  is_empty();
+//   line.as_ref() -> &SStr;  a line is its sequence of space-separated words;  SStr::splitn(n, ' ') yields the first
+//   n - 1 words and then the rest of the line as ONE token (the n-th word itself if it is the last, otherwise a token
+//   that parses as nothing: ASSUMED - text containing the separator is neither a time nor a label);  SStr::split(' ')
+//   yields every word;  is_empty();
 //   parse::<f64>() / parse::<SLabel>() return the value or the error the token was built with;
 //   to_string() returns an empty String;  Self::new records its arguments (the real Labels::new is
 //   proved in Verus unit labels).
@@ -21,19 +24,28 @@ pub struct SLabelErr;
 impl From<SFloatErr> for LabelError { fn from(_: SFloatErr) -> Self { LabelError::LengthMismatch } }
 impl From<SLabelErr> for LabelError { fn from(_: SLabelErr) -> Self { LabelError::LengthMismatch } }
 
-/// a token (or a whole line: then `toks` lists its tokens, at most 3, the third being "the rest")
+/// a token (or a whole line: then `toks` lists its space-separated words and `rest` holds the one unparsable token
+/// that stands for "several words with the separators between them")
 /// `text` is the line as written: only its length, byte-range slicing and to_string are taken from it (with std's own
 /// char-boundary rules), never its tokenisation
-pub struct SStr { empty: bool, float: Option<f64>, label: Option<SLabel>, toks: Vec<SStr>, text: &'static str }
+pub struct SStr { empty: bool, float: Option<f64>, label: Option<SLabel>, toks: Vec<SStr>, rest: Vec<SStr>, text: &'static str }
 impl std::ops::Index<std::ops::RangeTo<usize>> for SStr {
     type Output = str;
     fn index(&self, r: std::ops::RangeTo<usize>) -> &str { &self.text[r] }
 }
-pub struct SSplit<'a> { s: &'a SStr, pos: usize }
+pub struct SSplit<'a> { s: &'a SStr, pos: usize, n: usize }
 impl<'a> Iterator for SSplit<'a> {
     type Item = &'a SStr;
     fn next(&mut self) -> Option<&'a SStr> {
-        if self.pos < self.s.toks.len() { self.pos += 1; Some(&self.s.toks[self.pos - 1]) } else { None }
+        let words = self.s.toks.len();
+        if self.pos >= words || self.pos >= self.n { return None; }
+        if self.pos + 1 == self.n && words > self.n {
+            // the last piece of splitn: everything that is left, separators included
+            self.pos = words;
+            return Some(&self.s.rest[0]);
+        }
+        self.pos += 1;
+        Some(&self.s.toks[self.pos - 1])
     }
 }
 pub trait SParse: Sized { type Err; fn from_tok(t: &SStr) -> Result<Self, Self::Err>; }
@@ -46,11 +58,15 @@ impl SParse for SLabel {
     fn from_tok(t: &SStr) -> Result<SLabel, SLabelErr> { match t.label { Some(x) => Ok(x), None => Err(SLabelErr) } }
 }
 impl SStr {
-    fn tok(empty: bool, float: Option<f64>, label: Option<SLabel>) -> SStr { SStr { empty, float, label, toks: Vec::new(), text: "" } }
-    fn line(toks: Vec<SStr>) -> SStr { SStr { empty: false, float: None, label: None, toks, text: "" } }
-    fn line_with_text(toks: Vec<SStr>, text: &'static str) -> SStr { SStr { empty: false, float: None, label: None, toks, text } }
+    fn tok(empty: bool, float: Option<f64>, label: Option<SLabel>) -> SStr { SStr { empty, float, label, toks: Vec::new(), rest: Vec::new(), text: "" } }
+    fn line(toks: Vec<SStr>) -> SStr { SStr::line_with_text(toks, "") }
+    fn line_with_text(toks: Vec<SStr>, text: &'static str) -> SStr {
+        SStr { empty: false, float: None, label: None, toks, rest: vec![SStr::tok(false, None, None)], text }
+    }
     fn len(&self) -> usize { self.text.len() }
-    fn splitn(&self, n: usize, _sep: char) -> SSplit<'_> { assert!(n == 3); SSplit { s: self, pos: 0 } }
+    fn splitn(&self, n: usize, _sep: char) -> SSplit<'_> { SSplit { s: self, pos: 0, n } }
+    #[allow(dead_code)]
+    fn split(&self, _sep: char) -> SSplit<'_> { SSplit { s: self, pos: 0, n: usize::MAX } }
     fn is_empty(&self) -> bool { self.empty }
     fn parse<T: SParse>(&self) -> Result<T, T::Err> { T::from_tok(self) }
     fn to_string(&self) -> String { String::new() }
@@ -149,6 +165,12 @@ fn body_parse_errors_are_error_values() {
     let b = [SLine(SStr::line(vec![num(0.0), junk(), lab(1)]))];
     let c = [SLine(SStr::line(vec![num(0.0), num(5.0), junk()]))];
     let d = [SLine(SStr::line(vec![lab(1)])), SLine(SStr::line(vec![junk()]))];
+    // text after the label of a timed line belongs to the label token (the rest of the line), which then does not parse
+    let e = [SLine(SStr::line(vec![num(0.0), num(5.0), lab(1), lab(2)]))];
+    let re = SLabels::load_from_strings(48000, 240, &e);
+    assert!(re.is_err());
+    std::mem::forget(re);
+    std::mem::forget(e);
     let ra = SLabels::load_from_strings(48000, 240, &a);
     let rb = SLabels::load_from_strings(48000, 240, &b);
     let rc = SLabels::load_from_strings(48000, 240, &c);
